@@ -187,6 +187,34 @@ func runC02(c *Ctx) {
 			}
 		}
 	}
+	// 5. legacy documents with hostile memory-map sections (odd file names, deleted binaries, pseudo
+	// mappings, brief and /proc/maps forms) behind every legacy header
+	heads := []string{
+		"heap profile: 1: 2 [ 3: 4] @ heap_v2/524288\n1: 2 [ 3: 4] @ 0x400100 0x400200\n",
+		"heap profile: 1: 2 [ 3: 4] @ heapprofile\n1: 2 [ 3: 4] @ 0x400100\n",
+		"goroutine profile: total 1\n1 @ 0x400100 0x400200\n",
+		"--- threadz 1 ---\n\n--- Thread 7f0 (name: a/1) stack: ---\n  0x400100 0x400200\n",
+		"--- contentionz 1 ---\ncycles/second = 1000\n10 2 @ 0x400100 0x400200\n",
+	}
+	names := []string{"(deleted)", "/bin/app (deleted)", " (deleted)", "[vdso]", "[heap]", "", "/lib/x.so", "/lib/x.so.1 (deleted)", "a b", "[", "/bin/app"}
+	for i := 0; i < c.Budget(150, 5000); i++ {
+		doc := heads[r.Intn(len(heads))]
+		if r.Bool() {
+			doc += "\nMAPPED_LIBRARIES:\n"
+		} else {
+			doc += "--- Memory map: ---\n"
+		}
+		for k := r.Intn(4); k >= 0; k-- {
+			name := names[r.Intn(len(names))]
+			start := 0x400000 + 0x100000*uint64(r.Intn(3))
+			if r.Bool() {
+				doc += fmt.Sprintf("%08x-%08x r-xp %08x fd:01 1234 %s\n", start, start+0x100000, 0x1000*r.Intn(2), name)
+			} else {
+				doc += fmt.Sprintf("%08x-%08x: %s\n", start, start+0x100000, name)
+			}
+		}
+		parseCase("legacy-maps", []byte(doc), "stream:legacy-maps")
+	}
 	c.Extra["slow_parses"] = slow
 	c.Extra["inputs"] = total
 }
